@@ -3,7 +3,7 @@
 # the last quick run). Usage: tools/run_thorough.sh [Cxx ...]
 cd "$(dirname "$0")/.."
 props="${@:-C01 C02 C03 C04 C05 C06 C07 C08 C09 C11 C12 C13 C14 C15 C16}"
-mkdir -p thorough
+mkdir -p /verif/thorough
 for p in $props; do
-  VERIF_OUT=/verif/thorough ./check $p --tier thorough 2>&1 | grep -E "tier=|VIOLATION|UNDECIDED|KNOWN-FINDING" | cut -c1-300
-done | tee -a thorough/summary.txt
+  VERIF_WORK=${VERIF_WORK:-/var/tmp/h263-verif-thorough} VERIF_OUT=/verif/thorough ./check $p --tier thorough 2>&1 | grep -E "tier=|VIOLATION|UNDECIDED|KNOWN-FINDING" | cut -c1-300
+done | tee -a /verif/thorough/summary.txt
